@@ -807,6 +807,10 @@ func (r *rw) selectStmt(sel *ast.SelectStmt, label *ast.Ident) ast.Stmt {
 		body = append(body, cl.cc.Body...)
 		cases = append(cases, &ast.CaseClause{List: []ast.Expr{intLit(i)}, Body: body})
 	}
+	// A select whose cases all end in terminating statements is itself terminating
+	// (it may be the last statement of a function); the switch needs a default
+	// clause to keep that property. The clause is unreachable.
+	cases = append(cases, &ast.CaseClause{Body: []ast.Stmt{exprStmt(&ast.CallExpr{Fun: ast.NewIdent("panic"), Args: []ast.Expr{&ast.BasicLit{Kind: token.STRING, Value: `"zzsimrt: unreachable select dispatch"`}}})}})
 	var sw ast.Stmt = &ast.SwitchStmt{Tag: ast.NewIdent(idx), Body: &ast.BlockStmt{List: cases}}
 	if label != nil {
 		sw = &ast.LabeledStmt{Label: label, Stmt: sw}
